@@ -226,6 +226,9 @@ def make_cases(ctx):
                 add("c04now", s, None, kw, dir_, "current_period", None, [u], [{"u": u, "num": n, "den": 1}], zone=z, extra=extra)
                 if z2 is not None:
                     cases[c_len]["settings"]["TO_TIMEZONE"] = z2
+                # "the current instant" on days where month arithmetic has to clamp (the library's clock is moved there)
+                if rng.random() < 0.5:
+                    cases[c_len]["fake_today"] = rng.choice([[2024, 3, 31], [2023, 12, 31], [2024, 2, 29], [2021, 1, 31], [2022, 5, 31], [2023, 8, 31], [2025, 1, 1]])
     for c in cases:
         c["api"] = "ddp"
         c["probe"] = False
@@ -234,7 +237,10 @@ def make_cases(ctx):
 
 
 def to_call(c):
-    return {"s": c["s"], "kw": c["kwargs"], "settings": c["settings"], "api": "ddp", "probe": False}
+    out = {"s": c["s"], "kw": c["kwargs"], "settings": c["settings"], "api": "ddp", "probe": False}
+    if c.get("fake_today"):
+        out["fake_today"] = c["fake_today"]
+    return out
 
 
 def describe(c):
